@@ -37,6 +37,9 @@ def regen(ctx):
     ctx.write_gen('C20Consts', text)
     text, info = c20_skeleton.translate(ctx.repo)
     ctx.write_gen('C20AgSkeleton', text)
+    from translate import c20_statemachine, c20_datapath
+    ctx.write_gen('C20MuxEff', c20_statemachine.translate(ctx.repo))
+    ctx.write_gen('C20DataPath', c20_datapath.translate(ctx.repo))
     ctx.extra['ag_handlers'] = len(info['handlers'])
     ctx.extra['ag_skeleton_notes'] = info['notes']
     _STATE['handlers'] = info['handlers']
@@ -88,7 +91,7 @@ def run_virtual(coro):
 
 
 # =========================================================================== one Coq evaluation per run
-ALL_MODELS = ['Model.Rfcomm', 'Model.RfcommMux', 'Model.RfcommSm', 'Model.RfcommSm2', 'Model.HfpSlc', 'Model.AtSkeleton',
+ALL_MODELS = ['Model.Rfcomm', 'Model.RfcommMux', 'Model.RfcommSm', 'Model.RfcommSm2', 'Model.RfcommRxQueue', 'Model.HfpSlc', 'Model.AtSkeleton',
               'Gen.C20Consts', 'Gen.C20AgSkeleton']
 
 
@@ -334,6 +337,7 @@ def run_data_impl(case, drain=True):
         labels = list(case['labels'])
         i = 0
         steps = 0
+        drained_bad = None
         while i < len(labels) or (drain and (pair.ab or pair.ba)):
             if i < len(labels):
                 lab = labels[i]
@@ -368,6 +372,12 @@ def run_data_impl(case, drain=True):
                     nba -= 1
                     events.append(('d', 'ba', parse_frame(pair.ba[0])))
                     pair.deliver_ba()
+            if drained_bad is None:
+                for dd, (xa, xb) in dlcs.items():
+                    for side, x in (('A', xa), ('B', xb)):
+                        if x.drained.is_set() != (len(x.tx_buffer) == 0):
+                            drained_bad = (f'drained: after label {i - 1} {list(lab)} dlci {dd} end {side}: drained is '
+                                           f'{x.drained.is_set()} with {len(x.tx_buffer)} bytes buffered')
             new_ab = [parse_frame(p) for p in pair.ab[nab:]]
             new_ba = [parse_frame(p) for p in pair.ba[nba:]]
             for f in new_ab:
@@ -381,7 +391,7 @@ def run_data_impl(case, drain=True):
         final = [sorted([d, [x[0].mtu, x[0].tx_credits, x[0].rx_credits, len(x[0].tx_buffer)]] for d, x in dlcs.items()),
                  sorted([d, [x[1].mtu, x[1].tx_credits, x[1].rx_credits, len(x[1].tx_buffer)]] for d, x in dlcs.items()),
                  len(pair.ab), len(pair.ba)]
-        bad = data_oracle(case, events, written, logs, drained=drain, escaped=pair.escaped)
+        bad = data_oracle(case, events, written, logs, drained=drain, escaped=pair.escaped) or drained_bad
         return obs, final, labels, bad
     return run_virtual(main())
 
@@ -1009,6 +1019,105 @@ def run_e2e_multi(ctx):
                           {'kind': 'e2e_multi', 'order': order})
 
 
+# =========================================================================== a sink that is set late
+def run_presink_impl(n_before, n_after, size):
+    """n_before data frames reach a DLC that has no sink yet, then the sink is set, then
+    n_after more frames; returns the bytes the sink received and the bytes written"""
+    async def main():
+        pair = Pair()
+        await pair.connect()
+        da, db = await pair.open(1, (100, 5), (100, 5))
+        written = bytearray()
+        for k in range(n_before):
+            data = gen_bytes(k, size)
+            written += data
+            da.write(data)
+            await pair.pump()
+        got = bytearray()
+        db.sink = got.extend
+        await pair.pump()
+        for k in range(n_after):
+            data = gen_bytes(100 + k, size)
+            written += data
+            da.write(data)
+            await pair.pump()
+        return bytes(got), bytes(written)
+    return run_virtual(main())
+
+
+def run_presink(ctx, batch):
+    cases = [(0, 3, 10), (1, 0, 1), (5, 2, 90), (31, 1, 7), (32, 0, 99), (32, 3, 1), (33, 0, 4), (40, 2, 30)]
+    if not ctx.quick():
+        cases += [(n, m, sz) for n in (2, 16, 30, 34, 64, 100) for m in (0, 5) for sz in (1, 99)]
+
+    def frames(base, n, size):
+        return coq_list([list(gen_bytes(base + k, size)) for k in range(n)])
+    exprs = [f'digest (q_out (rxq_recv rx_queue_size (rxq_set_sink (rxq_recv rx_queue_size rxq_init '
+             f'{frames(0, nb, sz)})) {frames(100, na, sz)}))' for nb, na, sz in cases]
+
+    def compare(model):
+        for (nb, na, sz), m in zip(cases, model):
+            got, written = run_presink_impl(nb, na, sz)
+            ctx.case(('presink', nb, na, sz), nb > 0, None)
+            ctx.count('presink.cases')
+            if list(m) != list(digest(got)):
+                ctx.disagree('pre-sink receive queue', {'before': nb, 'after': na, 'size': sz}, list(m), list(digest(got)))
+            if got != written:
+                ctx.violation('rfcomm:presink-overflow',
+                              f'{nb} data frames arrived before the sink was set: the sink received {len(got)} of '
+                              f'{len(written)} bytes (the pre-sink queue holds 32 frames and drops the oldest)',
+                              {'kind': 'presink', 'before': nb, 'after': na, 'size': sz})
+    batch.add(exprs, compare)
+
+
+# =========================================================================== responder disconnects the multiplexer
+def run_d20j_impl():
+    """open_dlc in flight on the initiator while the RESPONDER disconnects the multiplexer"""
+    async def main():
+        pair = Pair()
+        await pair.connect()
+        pair.mb.acceptor = lambda ch: (100, 7)
+        t = asyncio.ensure_future(pair.ma.open_dlc(SM2_CH[0]))
+        t.add_done_callback(lambda t: t.cancelled() or t.exception())
+        await asyncio.sleep(0)
+        t2 = asyncio.ensure_future(pair.mb.disconnect())
+        await asyncio.sleep(0)
+        await pair.pump()
+        for _ in range(6):
+            await asyncio.sleep(0)
+        d = SM2_CH[0] * 2
+        res = [int(pair.ma.state), int(pair.mb.state),
+               int(pair.ma.dlcs[d].state) if d in pair.ma.dlcs else -1,
+               int(pair.mb.dlcs[d].state) if d in pair.mb.dlcs else -1,
+               0 if not t.done() else 1]
+        t.cancel()
+        t2.cancel()
+        await asyncio.sleep(0)
+        return res
+    return run_virtual(main())
+
+
+def run_d20j(ctx, batch):
+    expr = ('let s := sm2_runx sm2_init [X L_Connect; X L_DeliverAB; X L_DeliverBA; X (L_Open 0); X_BMuxDisc; '
+            'X L_DeliverAB; X L_DeliverBA; X L_DeliverAB; X L_DeliverBA; X L_DeliverAB; X L_DeliverBA] in '
+            '(mst_code (e_mux (t_a s)), mst_code (e_mux (t_b s)), dst_code (slot (t_a s) 0), dst_code (slot (t_b s) 0), '
+            'pend_code (e_pend (t_a s)))')
+
+    def compare(model):
+        res = run_d20j_impl()
+        ctx.case(('d20j',), True, None)
+        ctx.count('sm2.responder_muxdisc')
+        m = list(model[0])
+        mm = m[:4] + [0 if m[4] >= 0 else 1]
+        if mm != res:
+            ctx.disagree('responder disconnects the multiplexer during an open', None, mm, res)
+        if res[4] == 0 or res[2] != res[3]:
+            ctx.violation('rfcomm:responder-muxdisc',
+                          'the responder disconnects the multiplexer while open_dlc is in flight: open_dlc never returns'
+                          if res[4] == 0 else 'DLC states differ', {'kind': 'd20j'})
+    batch.add([expr], compare)
+
+
 # =========================================================================== HFP SLC
 def _hfp_enums():
     from bumble import hfp
@@ -1049,9 +1158,17 @@ def gen_slc_case(rng, hf_bits, ag_bits):
         else:
             vals = [0, 1]
         ag_inds.append([name, vals, rng.choice(vals)])
+    # after the SLC: AG indicator updates (+CIEV) and codec proposals (+BCS)
+    ops = []
+    for _ in range(rng.choice([0, 2, 5])):
+        if rng.chance(2, 3):
+            name = rng.choice(ag_inds)[0] if rng.chance(4, 5) else rng.below(len(list(hfp.AgIndicator)))
+            ops.append(['ciev', name, rng.below(6)])
+        else:
+            ops.append(['bcs', rng.choice([1, 2, 3])])
     return {'hf_feat': hf_feat, 'hf_inds': hf_inds, 'codecs': codecs,
             'ag_feat': ag_feat, 'ag_inds': ag_inds, 'ag_hf_inds': ag_hf_inds, 'chld': chld,
-            'disabled': disabled}
+            'disabled': disabled, 'ops': ops}
 
 
 def is_final(line: str) -> bool:
@@ -1116,8 +1233,44 @@ def run_slc_impl(case):
         ag_o = [ag.supported_hf_features, [int(c) for c in ag.supported_audio_codecs],
                 sorted([int(k), v.enabled] for k, v in ag.hf_indicators.items()),
                 ag.indicator_report_enabled, len(events)]
-        bad = slc_oracle(case, ok, hf, ag, cmds, rsps, events, hfp)
-        return ok, [cmd_code(c) for c in cmds], hf_o, ag_o, bad
+        slc_bad = slc_oracle(case, ok, hf, ag, cmds, rsps, events, hfp)
+        # ---- after the SLC: the HF's run() loop handles unsolicited result codes
+        live = None
+        live_bad = []
+        if ok and case.get('ops') is not None:
+            runner = asyncio.ensure_future(hf.run())
+            pending = []
+            for op in case['ops']:
+                if op[0] == 'ciev':
+                    try:
+                        ag.update_ag_indicator(names[op[1]], op[2])
+                    except KeyError:
+                        pass
+                else:
+                    t = asyncio.ensure_future(ag.negotiate_codec(hfp.AudioCodec(op[1])))
+                    t.add_done_callback(lambda t: t.cancelled() or t.exception())
+                    pending.append(t)
+                for _ in range(40):
+                    await asyncio.sleep(0)
+                hs = [i.current_status for i in hf.ag_indicators]
+                as_ = [i.current_status for i in ag.ag_indicators]
+                if hs != as_ and not live_bad:
+                    live_bad.append(f'indicators: after {op} the HF holds values {hs}, the AG {as_}')
+                if int(hf.active_codec) != int(ag.active_codec) and not live_bad:
+                    live_bad.append(f'codecs: after {op} active codec HF {int(hf.active_codec)} / AG {int(ag.active_codec)}')
+            live = [[i.current_status for i in ag.ag_indicators], [i.current_status for i in hf.ag_indicators],
+                    int(ag.active_codec), int(hf.active_codec), [int(c) for c in ag.supported_audio_codecs]]
+            for t in pending:
+                t.cancel()
+            runner.cancel()
+            await asyncio.sleep(0)
+            cmds2 = [x for x in bytes(to_ag).decode().split('\r') if x]
+            rsps2 = split_responses(bytes(to_hf))
+            if sum(1 for r in rsps2 if is_final(r)) != len(cmds2):
+                live_bad.append(f'final: {len(cmds2)} AT commands received by the AG, '
+                                f'{sum(1 for r in rsps2 if is_final(r))} final result codes sent')
+        bad = slc_bad + live_bad
+        return ok, [cmd_code(c) for c in cmds], hf_o, ag_o, bad, live
     return run_virtual(main())
 
 
@@ -1177,7 +1330,8 @@ def slc_case_coq(case):
     inds = coq_list(case['ag_inds'], lambda i: f'(mkAgInd {i[0]} {coq_list(i[1])} {coq_z(i[2])})')
     ag = (f"(mkAgCfg {coq_z(sum(case['ag_feat']))} {inds} {coq_list(case['ag_hf_inds_order'])} "
           f"{coq_list(case['chld'])} {coq_list(case['disabled'])})")
-    return f'slc_obs {hf} {ag}'
+    ops = coq_list(case.get('ops') or [], lambda o: f'(OpCiev {o[1]} {o[2]})' if o[0] == 'ciev' else f'(OpBcs {o[1]})')
+    return f'(slc_obs {hf} {ag}, live_obs {hf} {ag} {ops})'
 
 
 def run_slc(ctx, cases, batch=None):
@@ -1194,7 +1348,7 @@ def run_slc(ctx, cases, batch=None):
 
 def _compare_slc(ctx, cases, model):
     for k, (case, m) in enumerate(zip(cases, model)):
-        ok, sent, hf_o, ag_o, bad = run_slc_impl(case)
+        ok, sent, hf_o, ag_o, bad, live = run_slc_impl(case)
         ctx.case(('slc', json.dumps(case, sort_keys=True)), ok and len(sent) > 4,
                  {'kind': 'slc', 'case': case} if k % 40 == 11 else None)
         ctx.count('slc.cases')
@@ -1205,7 +1359,14 @@ def _compare_slc(ctx, cases, model):
         for b in bad:
             ctx.violation('hfp:' + b.split(':')[0], f'HFP service-level connection: {b}',
                           {'kind': 'slc', 'case': case})
-        mok, msent, mst = m
+        # (slc_obs, live_obs): Coq prints the nested pair flat
+        mok, msent, mst, mlive = m
+        if mlive is not None and live is not None:
+            la, lh, ca, ch, cs = mlive[1]
+            ml = [list(la), list(lh), ca, ch, list(cs)]
+            if ml != live:
+                ctx.disagree('HFP after the SLC (+CIEV / +BCS)', case, ml, live)
+            ctx.count('slc.live_ops', len(case.get('ops') or []))
         if not mok:
             mi = [False, msent[0]]
             ii = [ok, sent[-1] if sent else None]
@@ -1634,6 +1795,8 @@ def run(ctx):
     scheds2.extend(enum_sm2_schedules(ctx.n(3, 5)))
     ctx.extra['exhaustive_sm2_depth'] = ctx.n(3, 5)
     run_sm2(ctx, scheds2, batch)
+    run_d20j(ctx, batch)
+    run_presink(ctx, batch)
     # ---- HFP SLC
     slc_cases = [c['replay']['case'] for c in corpus if c['replay']['kind'] == 'slc']
     r = rng.fork('slc')
@@ -1704,7 +1867,7 @@ def replay_one(ctx, r, report=False):
         verdict = bad
         sig = 'rfcomm:teardown'
     elif r['kind'] == 'slc':
-        ok, sent, hf_o, ag_o, bad = run_slc_impl(r['case'])
+        ok, sent, hf_o, ag_o, bad, live = run_slc_impl(r['case'])
         verdict = '; '.join(bad) if bad else None
         sig = 'hfp:' + (bad[0] if bad else '').split(':')[0]
     elif r['kind'] == 'ag':
@@ -1728,6 +1891,16 @@ def replay_one(ctx, r, report=False):
         trace, bad = run_sm2_impl(r['labels'])
         verdict = bad
         sig = 'rfcomm:multi-teardown'
+    elif r['kind'] == 'presink':
+        got, written = run_presink_impl(r['before'], r['after'], r['size'])
+        if got != written:
+            verdict = f"{r['before']} frames before the sink was set: sink received {len(got)} of {len(written)} bytes"
+            sig = 'rfcomm:presink-overflow'
+    elif r['kind'] == 'd20j':
+        res = run_d20j_impl()
+        if res[4] == 0 or res[2] != res[3]:
+            verdict = f'responder multiplexer disconnect during an open: states {res}'
+            sig = 'rfcomm:responder-muxdisc'
     elif r['kind'] == 'e2e_multi':
         problems = e2e_multi_impl(r['order'])
         if problems:
